@@ -5,6 +5,7 @@ CONTRACT_MODULES = ["contracts.c15"]
 CARRIERS = [
     "batchie.scoring.gaussian_dbal.generate_combination_at_sorted_index",
     "batchie.scoring.gaussian_dbal.get_combination_at_sorted_index",
+    "batchie.scoring.gaussian_dbal.dbal_fast_gauss_scoring_vectorized@draw",
 ]
 LEAN = ["Batchie.pascal", "Batchie.absorb", "Batchie.succ_right", "Batchie.mul_succ", "Batchie.choose_zero",
         "Batchie.choose_pos", "Batchie.choose_n0", "Batchie.div_eq", "Batchie.div_exact",
@@ -21,11 +22,13 @@ TRUSTED = [
     "z3 5.1; Lean 4.33 kernel + Mathlib",
     "reading of each SMT lemma instance as the Lean theorem of the same name (nat -> int cast under the stated guards)",
     "itertools/zip/range/tuple semantics as modelled in pyvc.lib",
-    "numpy Generator.choice(N, size, replace=False) returns pairwise distinct members of range(N) (call-site clause, assumed)",
+    "numpy Generator.choice(N, size, replace=False) returns pairwise distinct members of range(N) (assumed library contract)",
 ]
 ASSUMPTIONS = [
     "Python ints are unbounded (exact); scipy.special.comb(exact=True) is the binomial coefficient",
-    "the DBAL call site's use of rng.choice(replace=False) is covered by the assumed numpy contract, checked natively (bounded)",
+    "the DBAL call site is verified as a REGION of dbal_fast_gauss_scoring_vectorized (shape unpacking .. the index draw): the indices "
+    "handed to the unranker are min(C(n,3), max_combos) pairwise distinct members of range(C(n,3)), given max_combos >= 0; the rest of that "
+    "function (floating-point kernel) is outside this contract",
 ]
 
 
